@@ -35,7 +35,11 @@ func init() { core.Register("C06", func() core.Prop { return &c06{} }) }
 
 func (p *c06) ID() string { return "C06" }
 
-var c06Branches = []string{"SELECT a, b FROM t", "SELECT a, b FROM t WHERE b = 'q'", "SELECT a, b FROM u"}
+var c06Branches = []string{"SELECT a, b FROM t", "SELECT a, b FROM t WHERE b = 'q'", "SELECT a, b FROM u",
+	// reads a CTE of the enclosing WITH (the statement is then prefixed with c06With)
+	"SELECT a, b FROM c"}
+
+const c06With = "WITH c AS (SELECT a, b FROM t WHERE b = 'q') "
 
 func (p *c06) Init(tier string) {
 	p.tier = tier
@@ -52,8 +56,8 @@ func (p *c06) Init(tier string) {
 		}
 	}
 	for _, lim := range []int{-1, 0, 2, 5} {
-		for b1 := range c06Branches {
-			for b2 := range c06Branches {
+		for b1 := range c06Branches[:3] {
+			for b2 := range c06Branches[:3] {
 				for _, o1 := range []bool{false, true} {
 					p.cases = append(p.cases, c06case{kind: 1, branches: []int{b1, b2}, ops: []bool{o1}, limit: lim, offset: -1})
 					if lim == 2 {
@@ -62,12 +66,24 @@ func (p *c06) Init(tier string) {
 					if lim == 0 || lim == 5 {
 						continue
 					}
-					for b3 := range c06Branches {
+					for b3 := range c06Branches[:3] {
 						for _, o2 := range []bool{false, true} {
 							p.cases = append(p.cases, c06case{kind: 1, branches: []int{b1, b2, b3}, ops: []bool{o1, o2}, limit: lim, offset: -1})
 						}
 					}
 				}
+			}
+		}
+	}
+	// union chains under a WITH clause: the CTE is read by the first, a middle or the last branch
+	for _, bs := range [][]int{{3, 0}, {0, 3}, {3, 3}, {2, 3}, {3, 2}, {0, 3, 2}, {2, 0, 3}, {3, 2, 3}, {0, 2, 3}} {
+		for m := 0; m < 1<<(len(bs)-1); m++ {
+			var ops []bool
+			for k := 0; k < len(bs)-1; k++ {
+				ops = append(ops, m&(1<<k) != 0)
+			}
+			for _, lim := range []int{-1, 2} {
+				p.cases = append(p.cases, c06case{kind: 1, branches: bs, ops: ops, limit: lim, offset: -1})
 			}
 		}
 	}
@@ -94,10 +110,10 @@ func (p *c06) Init(tier string) {
 		}
 	}
 	if tier == "thorough" {
-		for b1 := range c06Branches {
-			for b2 := range c06Branches {
-				for b3 := range c06Branches {
-					for b4 := range c06Branches {
+		for b1 := range c06Branches[:3] {
+			for b2 := range c06Branches[:3] {
+				for b3 := range c06Branches[:3] {
+					for b4 := range c06Branches[:3] {
 						for m := 0; m < 8; m++ {
 							p.cases = append(p.cases, c06case{kind: 1, branches: []int{b1, b2, b3, b4}, ops: []bool{m&1 != 0, m&2 != 0, m&4 != 0}, limit: -1, offset: -1})
 						}
@@ -195,6 +211,12 @@ func (p *c06) sqlOf(c *c06case) string {
 		}
 	}
 	s := c06Branches[c.branches[0]]
+	for _, b := range c.branches {
+		if b == 3 {
+			s = c06With + s
+			break
+		}
+	}
 	for i, op := range c.ops {
 		if op {
 			s += " UNION ALL "
@@ -233,7 +255,7 @@ func (p *c06) branchRows(b int, t []any) []string {
 	switch b {
 	case 0:
 		src = t
-	case 1:
+	case 1, 3:
 		for _, r := range t {
 			if r.(map[string]any)["b"] == "q" {
 				src = append(src, r)
@@ -378,7 +400,7 @@ func window(rows []string, limit, offset int) []string {
 
 func (p *c06) Meta() core.Meta {
 	return core.Meta{
-		Rule: "DISTINCT cases: 7 select lists (1-3 columns incl. an object-valued one, *), each also with LIMIT 0..3 / OFFSET absent,0..2 (no ORDER BY: the window applies to the de-duplicated sequence); UNION cases: every chain of 2-3 (thorough 4) branches over 3 branch queries with every mix of UNION / UNION ALL, without and with LIMIT; parenthesised operands that carry a LIMIT / OFFSET of their own (left- and right-nested unions, windowed single branches); each on every table of <= 3 rows over 10 archetypes (thorough: also 4-5 rows over the first 6) and one table of 41 rows chosen to collide under %v ({a:1}/{a:\"1\"}, {a:\"x b:y\",b:\"q\"}/{a:\"x\",b:\"y b:q\"}); every successfully executed Query object is executed two more times and must return the same rows; non-trivial = a duplicate was actually removed and more than one row remains",
+		Rule: "DISTINCT cases: 7 select lists (1-3 columns incl. an object-valued one, *), each also with LIMIT 0..3 / OFFSET absent,0..2 (no ORDER BY: the window applies to the de-duplicated sequence); UNION cases: every chain of 2-3 (thorough 4) branches over 3 branch queries with every mix of UNION / UNION ALL, without and with LIMIT; chains under a WITH clause whose CTE is read by the first, a middle or the last branch; parenthesised operands that carry a LIMIT / OFFSET of their own (left- and right-nested unions, windowed single branches); each on every table of <= 3 rows over 10 archetypes (thorough: also 4-5 rows over the first 6) and one table of 41 rows chosen to collide under %v ({a:1}/{a:\"1\"}, {a:\"x b:y\",b:\"q\"}/{a:\"x\",b:\"y b:q\"}); every successfully executed Query object is executed two more times and must return the same rows; non-trivial = a duplicate was actually removed and more than one row remains",
 		Assumptions: []string{
 			"two rows are duplicates iff they have the same keys and type-identical values (the number 1 and the string \"1\" are different values)",
 			"chains associate to the left: (A op1 B) op2 C",
